@@ -221,11 +221,16 @@ def check(case, ctx) -> Result:
     # ---- lifecycle: one child graph start per appearance, one stop per removal (and at the end)
     mnode = next((i for i, n in enumerate(resp["graph"]["nodes"]) if n.get("k") == "nested" or "map" in str(n.get("n", "")).lower()), None)
     starts = sum(1 for e in resp["trace"] if e[0] == "gs" and isinstance(e[1], str) and e[1].count("/") == 1)
-    stops = sum(1 for e in resp["trace"] if e[0] == "gp" and isinstance(e[1], str) and e[1].count("/") == 1)
+    stops = 0
+    for e in resp["trace"]:
+        if e[0] == "phase" and e[1] == "run_returned":
+            break
+        if e[0] == "gp" and isinstance(e[1], str) and e[1].count("/") == 1:
+            stops += 1
     if starts != len(lts):
         res.violations.append(Viol("child_start_count", f"{starts} child graphs were started for {len(lts)} key appearances", feats))
     if stops != starts:
-        res.violations.append(Viol("child_stop_count", f"{starts} child graphs started but {stops} stopped by the end of the run", feats))
+        res.violations.append(Viol("child_stop_count", f"{starts} child graphs started but only {stops} had been stopped when run() returned", feats))
     readd = len({k for k, *_ in lts}) < len(lts)
     maxlive = 0
     for t, ops in case["script"]:
